@@ -734,6 +734,12 @@ func (e *endpoint) watchPoll(ctx context.Context, pollingInterval uint32, nonRec
 		// Disable the use of the existing scan results.
 		e.accelerate = false
 
+		// Track the snapshot generated by the most recent scan, which may have
+		// been performed by Scan (on behalf of the controller) rather than by
+		// this Goroutine, in which case it's more recent than our previous
+		// snapshot.
+		lastScanSnapshot := e.snapshot
+
 		// Perform a scan. If there's an error, then assume it's due to
 		// concurrent modification. In that case, release the scan lock and
 		// strobe the poll events channel. The controller can then perform a
@@ -765,8 +771,16 @@ func (e *endpoint) watchPoll(ctx context.Context, pollingInterval uint32, nonRec
 		// Release the scan lock.
 		e.unlockScanLock()
 
-		// Check for modifications.
-		modified := !snapshot.Equal(previous)
+		// Check for modifications. In addition to comparing with the previous
+		// polling snapshot, we also compare with the most recent snapshot seen
+		// by any scan. Otherwise, content that the controller has seen (e.g.
+		// because it was just created by Transition and then observed by the
+		// controller's follow-up scan) but which is removed (or otherwise
+		// reverted) before our next polling scan would look unmodified from our
+		// perspective, and the controller would never be notified that the
+		// disk no longer matches what it last saw.
+		modified := !snapshot.Equal(previous) ||
+			(lastScanSnapshot != nil && !snapshot.Equal(lastScanSnapshot))
 
 		// If we have a working non-recursive watcher, or we're performing trace
 		// logging, then perform a full diff to determine what's changed. This
